@@ -152,6 +152,14 @@ def build_unit(unit, log):
         return unit['text'], dict(id=uid, file='(contracts)', kind='raw', line=0, end_line=0, properties=[])
     src = _read(unit['file'])
     meta = dict(id=uid, file=unit['file'], kind=kind, properties=unit.get('properties', []))
+    if kind == 'block':
+        a, o, c = rsparse.find_block(src, unit['header'])
+        raw = src[a:c + 1]
+        text = rsparse.strip_comments_attrs(raw)
+        meta.update(line=rsparse.line_of(src, a), end_line=rsparse.line_of(src, c),
+                    sha256=hashlib.sha256(raw.encode()).hexdigest())
+        text = _apply_rewrites(text, unit.get('rw', []), log, uid, 'item')
+        return text, meta
     if kind in ('struct', 'enum', 'trait'):
         it = rsparse.find_item(src, kind, unit['name'])
         text = rsparse.strip_comments_attrs(it['text'])
